@@ -2,21 +2,22 @@
 Path enumerations of `Market._cancel_order` (see SrcCancelDefs.lean): `nf%` computes the pruned paths of
 the symbolic run of the *current* translated source, `rfl` makes the kernel re-check them.
 -/
+import PamsLemmas.EvalNf
 import PamsLemmas.SrcCancelDefs
 
 namespace Pams.Src
 open Pams Pams.Py
 set_option maxRecDepth 1000000
 
-theorem cancelP_tt_alone : cancelPaths true true .alone = nf% (cancelPaths true true .alone) := by rfl
-theorem cancelP_tt_top : cancelPaths true true .top = nf% (cancelPaths true true .top) := by rfl
-theorem cancelP_tt_second : cancelPaths true true .second = nf% (cancelPaths true true .second) := by rfl
-theorem cancelP_tt_goneEmpty : cancelPaths true true .goneEmpty = nf% (cancelPaths true true .goneEmpty) := by rfl
-theorem cancelP_tt_goneOther : cancelPaths true true .goneOther = nf% (cancelPaths true true .goneOther) := by rfl
-theorem cancelP_tf_alone : cancelPaths true false .alone = nf% (cancelPaths true false .alone) := by rfl
-theorem cancelP_tf_top : cancelPaths true false .top = nf% (cancelPaths true false .top) := by rfl
-theorem cancelP_tf_second : cancelPaths true false .second = nf% (cancelPaths true false .second) := by rfl
-theorem cancelP_tf_goneEmpty : cancelPaths true false .goneEmpty = nf% (cancelPaths true false .goneEmpty) := by rfl
-theorem cancelP_tf_goneOther : cancelPaths true false .goneOther = nf% (cancelPaths true false .goneOther) := by rfl
+theorem cancelP_tt_alone : cancelPaths true true .alone = evalnf% (cancelPaths true true .alone) := by kernel_rfl
+theorem cancelP_tt_top : cancelPaths true true .top = evalnf% (cancelPaths true true .top) := by kernel_rfl
+theorem cancelP_tt_second : cancelPaths true true .second = evalnf% (cancelPaths true true .second) := by kernel_rfl
+theorem cancelP_tt_goneEmpty : cancelPaths true true .goneEmpty = evalnf% (cancelPaths true true .goneEmpty) := by kernel_rfl
+theorem cancelP_tt_goneOther : cancelPaths true true .goneOther = evalnf% (cancelPaths true true .goneOther) := by kernel_rfl
+theorem cancelP_tf_alone : cancelPaths true false .alone = evalnf% (cancelPaths true false .alone) := by kernel_rfl
+theorem cancelP_tf_top : cancelPaths true false .top = evalnf% (cancelPaths true false .top) := by kernel_rfl
+theorem cancelP_tf_second : cancelPaths true false .second = evalnf% (cancelPaths true false .second) := by kernel_rfl
+theorem cancelP_tf_goneEmpty : cancelPaths true false .goneEmpty = evalnf% (cancelPaths true false .goneEmpty) := by kernel_rfl
+theorem cancelP_tf_goneOther : cancelPaths true false .goneOther = evalnf% (cancelPaths true false .goneOther) := by kernel_rfl
 
 end Pams.Src
